@@ -5,7 +5,7 @@ import props, build
 
 TEXT = {
     "C01": "full proof of the tiling statement on the model for every input (C01_tiling: ordered, disjoint root ranges inside the input, gaps and rest blank, Source = range with NUL replaced, StartLine by line endings, lengths) and for the streaming entry point (parseStream_eq_small); the memory clauses (aliasing, buffer untouched) are observed on the implementation by the oracle; tie: root-block headers through both entry points",
-    "C02": "proof on the model for every input: block spans valid, nested, ordered (parseFull_block_spans); inline spans valid, nested, ordered for every matcher (parseBlocks_inline_spans); every span boundary on a character boundary for valid UTF-8 input (C02_boundaries); Props.C02_statement is reduced to these plus two executable residual facts (order of a definition's parts, blanks before a root's block) that are evaluated, not yet proved; tie: span-structure correspondence, the span oracle and the formal statement evaluated on the implementation's trees",
+    "C02": "full proof on the model: C02_full = Props.C02_statement (for every input: root clauses, every block and inline span valid, inside its parent, siblings ordered and disjoint, and for valid UTF-8 input every span boundary on a character boundary); tie: span-structure correspondence, the span oracle and the formal statement evaluated on the implementation's trees",
     "C03": "full proof on the model: C03_full = Props.C03_statement (for every input no byte is covered by two leaves and every textual byte by exactly one), composed from the block-layer accounting, the coverage theorem of the inline parser and the entry invariants of the block layer; tie: leaf-span correspondence plus the coverage oracle and the formal statement evaluated on the implementation's trees",
     "C04": "full proof on the model that the whole parse is total for every input: the block layer reaches no panic site and exhausts no fuel (parseBlocks_total), the inline parser exhausts none of its fuels (parseFull_fuel_adequate, parseFull_total); Walk and readline terminate with stated fuel, renderer/formatter models are total; the implementation is run under recover + watchdog in all 30 configurations on hostile inputs; tie: model/implementation correspondence",
     "C05": "full proof on the model of the node grammar for every input: block level (parseFull_gramBlocks), inline level incl. no link in a link and title-follows-destination (ComposeGram.parseFull_gramI), canContain closure, entry kinds, reference closure, item-number range; accessor agreement decided by kind/accessor correspondence through both entry points plus the grammar oracle",
